@@ -282,7 +282,7 @@ func (p Point) MarshalBSON() ([]byte, error) {
 // UnmarshalJSON will unmarshal the GeoJSON Point geometry.
 func (p *Point) UnmarshalJSON(data []byte) error {
 	g := &Geometry{}
-	err := unmarshalJSON(data, &g)
+	err := unmarshalJSON(data, g)
 	if err != nil {
 		return err
 	}
@@ -334,7 +334,7 @@ func (mp MultiPoint) MarshalBSON() ([]byte, error) {
 // UnmarshalJSON will unmarshal the GeoJSON MultiPoint geometry.
 func (mp *MultiPoint) UnmarshalJSON(data []byte) error {
 	g := &Geometry{}
-	err := unmarshalJSON(data, &g)
+	err := unmarshalJSON(data, g)
 	if err != nil {
 		return err
 	}
@@ -386,7 +386,7 @@ func (ls LineString) MarshalBSON() ([]byte, error) {
 // UnmarshalJSON will unmarshal the GeoJSON MultiPoint geometry.
 func (ls *LineString) UnmarshalJSON(data []byte) error {
 	g := &Geometry{}
-	err := unmarshalJSON(data, &g)
+	err := unmarshalJSON(data, g)
 	if err != nil {
 		return err
 	}
@@ -438,7 +438,7 @@ func (mls MultiLineString) MarshalBSON() ([]byte, error) {
 // UnmarshalJSON will unmarshal the GeoJSON MultiPoint geometry.
 func (mls *MultiLineString) UnmarshalJSON(data []byte) error {
 	g := &Geometry{}
-	err := unmarshalJSON(data, &g)
+	err := unmarshalJSON(data, g)
 	if err != nil {
 		return err
 	}
@@ -490,7 +490,7 @@ func (p Polygon) MarshalBSON() ([]byte, error) {
 // UnmarshalJSON will unmarshal the GeoJSON Polygon geometry.
 func (p *Polygon) UnmarshalJSON(data []byte) error {
 	g := &Geometry{}
-	err := unmarshalJSON(data, &g)
+	err := unmarshalJSON(data, g)
 	if err != nil {
 		return err
 	}
@@ -542,7 +542,7 @@ func (mp MultiPolygon) MarshalBSON() ([]byte, error) {
 // UnmarshalJSON will unmarshal the GeoJSON MultiPolygon geometry.
 func (mp *MultiPolygon) UnmarshalJSON(data []byte) error {
 	g := &Geometry{}
-	err := unmarshalJSON(data, &g)
+	err := unmarshalJSON(data, g)
 	if err != nil {
 		return err
 	}
